@@ -14,7 +14,7 @@ SPEC = dict(
                 "These theorems cover the modelled basic path (Kahn / shortest distance); the space-assignment / duplication path is modelled and "
                 "evaluated under three id streams per case but its equivariance is not proved. On the implementation the property is checked by a "
                 "schedule experiment: generated object DAGs (incl. duplication path), real GPOS/GSUB/GDEF/name/cmap/HVAR/fvar tables, synthetic GPOS "
-                "forcing splitting and promotion, gvar and ItemVariationStore builders, FontBuilder::build and klippa::subset_font compiled repeatedly "
+                "forcing splitting and promotion, a GSUB whose big lookups pairwise share a coverage (several 32-bit spaces overflowing in one isolation round), every layout builder that collects into hash containers (SinglePos/PairPos/MarkToBase/MarkToMark/MarkToLig/Cursive/ClassDef/Coverage builders, each also repeated 32x in-process), gvar and ItemVariationStore builders, FontBuilder::build and klippa::subset_font compiled repeatedly "
                 "after unrelated compilations, on 1..16 threads with randomised starts, and in fresh child processes; all hashes must agree — partial "
                 "(tested only) for gvar/IVS/klippa and the advanced path."),
     level_note=("Trusted: Coq kernel; coq/C05/Model.v (its agreement with write-fonts is checked on every run, not proved); the harness; the assumption "
